@@ -16,27 +16,28 @@ type Opts struct {
 	OnExclude func(finding string)
 	OnClass   func(class string)
 
-	Pointers    bool // allow pointer fields
-	Unions      int  // 0 none, 1 allowed, 2 at least one
-	Hostile     bool // add unsupported forms (chan, func, anonymous struct, any, error, complex, anonymous containers of unions, …)
-	RareBasics  bool // basic kinds outside randdata's list (uint, uint32, uint64, float32, uintptr)
-	Recursion   bool // self / mutual recursion through slices, maps (and pointers when Pointers)
-	SubPkgs     bool
-	Generics    bool
-	Aliases     bool
-	Embedded    bool
-	StdTypes    bool
-	Spelling    bool // unusual but legal spellings (one-letter names, short package names, shared prefixes …)
-	TagVariety  bool // the full tag spelling catalogue of C09
-	NoIgnoreTag bool // never put gomacro:"ignore" on a JSON-visible field (C03/C04 domain note)
-	JSONSafe    bool // only shapes whose Go JSON encoding round-trips (no bool/float map keys, no embedded time …)
-	EnumStress  bool // every enum declaration style of C10
-	UnionStress bool // near misses, foreign implementers, embedded interfaces, zero-method interfaces (C11)
-	MaxDecls    int
-	MinDecls    int
-	FixedArrays bool
-	Maps        bool
-	Times       bool
+	Pointers      bool // allow pointer fields
+	Unions        int  // 0 none, 1 allowed, 2 at least one
+	Hostile       bool // add unsupported forms (chan, func, anonymous struct, any, error, complex, anonymous containers of unions, …)
+	RareBasics    bool // basic kinds outside randdata's list (uint, uint32, uint64, float32, uintptr)
+	Recursion     bool // self / mutual recursion through slices, maps (and pointers when Pointers)
+	SubPkgs       bool
+	Generics      bool
+	Aliases       bool
+	Embedded      bool
+	StdTypes      bool
+	Spelling      bool // unusual but legal spellings (one-letter names, short package names, shared prefixes …)
+	TagVariety    bool // the full tag spelling catalogue of C09
+	NoIgnoreTag   bool // never put gomacro:"ignore" on a JSON-visible field (C03/C04 domain note)
+	JSONSafe      bool // only shapes whose Go JSON encoding round-trips (no bool/float map keys, no embedded time …)
+	NoValuerNames bool // no field named Value / Scan (the type receives sql.Valuer / sql.Scanner methods)
+	EnumStress    bool // every enum declaration style of C10
+	UnionStress   bool // near misses, foreign implementers, embedded interfaces, zero-method interfaces (C11)
+	MaxDecls      int
+	MinDecls      int
+	FixedArrays   bool
+	Maps          bool
+	Times         bool
 }
 
 func (o *Opts) gated(feature string) bool {
@@ -107,6 +108,10 @@ func (g *gen) used(pkg *Pkg) map[string]bool {
 // freshName draws an unused identifier for pkg.
 func (g *gen) freshName(pkg *Pkg, label string, exported bool) string {
 	used := g.used(pkg)
+	if pkg != g.spec.Pkgs[0] && !g.o.Hostile {
+		// types of imported packages appear in generated code of the root package: they are exported
+		exported = true
+	}
 	for try := 0; ; try++ {
 		var name string
 		w := words[rapid.IntRange(0, len(words)-1).Draw(g.t, label)]
@@ -221,6 +226,7 @@ type typeCtx struct {
 	inAnonCon bool // inside an anonymous slice/map/array: unions not allowed (documented precondition), unless Hostile
 	noUnion   bool
 	inArray   bool // inside a fixed array: no slices/maps (TypeScript refuses them) unless Hostile
+	namedElem bool // element/key of a named container (its underlying type is an anonymous container)
 }
 
 // drawType draws a field type for a declaration of pkg.
@@ -298,6 +304,10 @@ func (g *gen) drawType(pkg *Pkg, label string, c typeCtx) (*TypeRef, *tinfo) {
 			if c.inArray && !g.o.Hostile && (ti.cat == "slice" || ti.cat == "map") {
 				return false
 			}
+			// wrappers are only generated for unions of the analysed package: fields use local unions
+			if (ti.cat == "union" || ti.hasUnion) && ti.pkg != pkg && !g.o.Hostile {
+				return false
+			}
 			return true
 		})
 		if len(cands) == 0 {
@@ -323,12 +333,15 @@ func (g *gen) drawType(pkg *Pkg, label string, c typeCtx) (*TypeRef, *tinfo) {
 		e, ti := g.drawType(pkg, label+"E", typeCtx{depth: c.depth + 1, inAnonCon: true})
 		return Map(k, e), ti
 	case "ptr":
-		e, ti := g.drawType(pkg, label+"E", typeCtx{depth: c.depth + 1, noUnion: true})
+		e, ti := g.drawType(pkg, label+"E", typeCtx{depth: c.depth + 1, noUnion: true, namedElem: true})
 		if e.K == TPtr {
 			return e, ti
 		}
 		return Ptr(e), ti
 	case "time":
+		if (c.inAnonCon || c.namedElem) && g.o.gated("time_in_anonymous_container") {
+			return Basic("string"), nil
+		}
 		return Std("time", "Time"), nil
 	case "std":
 		return Std("image", "Point"), nil
@@ -372,6 +385,9 @@ func (g *gen) drawFieldName(used map[string]bool, label string) string {
 		}
 		if g.o.Spelling && rapid.IntRange(0, 14).Draw(g.t, label+"Sp") == 0 {
 			w = []string{"ID", "Id", "URL", "X", "Type", "Func", "A", "B"}[rapid.IntRange(0, 7).Draw(g.t, label+"SpW")]
+		}
+		if g.o.NoValuerNames && (w == "Value" || w == "Scan") {
+			continue
 		}
 		if !used[w] {
 			used[w] = true
@@ -515,7 +531,7 @@ func (g *gen) addNamed(pkg *Pkg, file *File) *tinfo {
 		d := &Decl{Kind: KNamed, Name: name, Type: Basic("int64")}
 		return g.newDecl(pkg, file, d, &tinfo{cat: "id", base: "int64", keyOK: true})
 	case 4, 5: // named slice
-		e, eti := g.drawType(pkg, "nsElem", typeCtx{depth: 1})
+		e, eti := g.drawType(pkg, "nsElem", typeCtx{depth: 1, namedElem: true})
 		d := &Decl{Kind: KNamed, Name: g.freshName(pkg, "nsName", exported), Type: Slice(e)}
 		ti := &tinfo{cat: "slice"}
 		if eti != nil {
@@ -528,7 +544,7 @@ func (g *gen) addNamed(pkg *Pkg, file *File) *tinfo {
 			break
 		}
 		k, _ := g.drawType(pkg, "nmKey", typeCtx{asKey: true})
-		e, eti := g.drawType(pkg, "nmElem", typeCtx{depth: 1})
+		e, eti := g.drawType(pkg, "nmElem", typeCtx{depth: 1, namedElem: true})
 		d := &Decl{Kind: KNamed, Name: g.freshName(pkg, "nmName", exported), Type: Map(k, e)}
 		ti := &tinfo{cat: "map"}
 		if eti != nil {
@@ -540,7 +556,7 @@ func (g *gen) addNamed(pkg *Pkg, file *File) *tinfo {
 		if !g.o.FixedArrays {
 			break
 		}
-		e, eti := g.drawType(pkg, "naElem", typeCtx{depth: 1, inArray: true, noUnion: g.o.gated("named_array_of_union")})
+		e, eti := g.drawType(pkg, "naElem", typeCtx{depth: 1, inArray: true, namedElem: true, noUnion: g.o.gated("named_array_of_union")})
 		n := rapid.IntRange(1, 4).Draw(t, "naLen")
 		d := &Decl{Kind: KNamed, Name: g.freshName(pkg, "naName", exported), Type: Array(n, e)}
 		ti := &tinfo{cat: "array"}
@@ -568,7 +584,12 @@ func (g *gen) addNamed(pkg *Pkg, file *File) *tinfo {
 		d := &Decl{Kind: KNamed, Name: g.freshName(pkg, "stampName", true), Type: Std("time", "Time"), TimeLike: true}
 		return g.newDecl(pkg, file, d, &tinfo{cat: "time"})
 	case 9: // named over named
-		cands := g.candidates(pkg, func(x *tinfo) bool { return x.cat == "basic" || x.cat == "struct" || x.cat == "slice" })
+		cands := g.candidates(pkg, func(x *tinfo) bool {
+			if x.pkg != pkg && x.hasUnion && !g.o.Hostile {
+				return false
+			}
+			return x.cat == "basic" || x.cat == "struct" || x.cat == "slice"
+		})
 		if len(cands) > 0 {
 			b := cands[rapid.IntRange(0, len(cands)-1).Draw(t, "nnRef")]
 			d := &Decl{Kind: KNamed, Name: g.freshName(pkg, "nnName", exported), Type: g.refTo(pkg, b)}
